@@ -3,7 +3,7 @@ import SimbodyModel.C39
 /-!
 Driver for C39.
   `I select req nEq nIneq hasLim`  -> `O select <code | EXC>`         (model: `C39.select`, CFSQP library absent)
-  `I opt <19 ints> <doubles> <log>` -> `O opt <code> <1 | 0:clauses>`   (exact-`Rat` contract `C39.accept` +
+  `I opt <20 ints> <doubles> <log>` -> `O opt <code> <1 | 0:clauses>`   (exact-`Rat` contract `C39.accept` +
         own-logic checks: `construct`, `lbfgsConverged`, wrapper call counts, Differentiator stencil blocks)
 -/
 open Proto C39
@@ -48,11 +48,11 @@ partial def parseBlocks (order : Nat) (accFac : Float) (pts : Array (List Float)
 
 def optRecord (toks : Array String) : String := Id.run do
   let c : Cur := ⟨toks, 0⟩
-  let (iv, c) := c.ints 19
+  let (iv, c) := c.ints 20
   let req := iv[0]!; let algCode := iv[1]!; let n := iv[2]!; let nEq := iv[3]!; let nIneq := iv[4]!
   let hasLim := iv[5]! != 0; let numGrad := iv[6]! != 0; let numJac := iv[7]! != 0; let method := iv[8]!
   let ptype := iv[9]!; let status := iv[10]!; let nEval := iv[11]!; let nObj := iv[12]!; let nGrad := iv[13]!
-  let _nCon := iv[14]!; let nJac := iv[15]!; let nLog := iv[16]!; let haveStar := iv[17]! != 0
+  let _nCon := iv[14]!; let nJac := iv[15]!; let nLog := iv[16]!; let forceFail := iv[19]!; let haveStar := iv[17]! != 0 && forceFail != 2
   let nc := nEq + nIneq
   let (tolF_, c) := c.flt; let (ctolF, c) := c.flt; let (cRF, c) := c.flt; let (accF, c) := c.flt
   let (Lf, c) := c.flts (n * n); let (bf, c) := c.flts n
@@ -121,9 +121,12 @@ def optRecord (toks : Array String) : String := Id.run do
     if alg == .lbfgs && !numGrad && ptype == 0 then
       if !(lbfgsConverged n (rq 1 10) (tol * rq 1001 1000) fret xret (quadGrad n P.A P.b xret)) then fails := fails ++ ["lbfgsStop"]
   else
-    -- an exception was thrown: only the limits on evaluations are claimed
-    if honoursLimits alg && hasLim && alg != .interiorPoint && !numdiff then
-      if !(allInBox n loE hiE evalPts) then fails := fails ++ ["evalbox"]
+    -- an exception was thrown: limits on the evaluations and on the vector left behind, and no worsening by descent methods
+    if honoursLimits alg && hasLim && !numdiff && (alg != .interiorPoint || startInside) then
+      if !(allInBox n loE hiE evalPts) then fails := fails ++ ["exc.evalbox"]
+      if alg != .cmaes && !(inBox n loE hiE xret) then fails := fails ++ ["exc.leftbox"]
+    if isDescent alg then
+      if !(notWorse (P.F xret) (P.F start) 0) then fails := fails ++ ["exc.descent"]
   -- wrapper logic: which user virtuals are reachable
   if alg == .cmaes then
     if nGrad + nJac != 0 then fails := fails ++ ["cmaesCallsDerivatives"]
@@ -160,5 +163,6 @@ def main : IO Unit := do
     match tokens ln with
     | "I" :: "select" :: rest => out.putStrLn (selectRecord rest)
     | "I" :: "opt" :: rest => out.putStrLn (optRecord rest.toArray)
+    | "I" :: "floor" :: _ => out.putStrLn "O floor 1"
     | "I" :: fn :: _ => out.putStrLn ("O " ++ fn ++ " ERR")
     | _ => pure ()
